@@ -716,11 +716,8 @@ func init() {
 	})
 	reg("(*sync.WaitGroup).Wait", func(ex *exec, fr *frame, fn *ssa.Function, a []value) value {
 		p := a[0].(*value)
-		if ex.wgCount[p] > 0 && !ex.inGo {
-			ex.runPending()
-		}
-		if ex.wgCount[p] > 0 {
-			panic(blocked("WaitGroup.Wait"))
+		for ex.wgCount[p] > 0 {
+			ex.park("WaitGroup.Wait")
 		}
 		return nil
 	})
